@@ -445,8 +445,11 @@ def check(pid, tier):
         "assumptions": list(world.assumptions) + cfg.get("assumptions", []),
         "wall_s": round(time.time() - t_start, 2), "violations": nviol,
     }
-    os.makedirs(os.path.join(HERE, "evidence"), exist_ok=True)
-    with open(os.path.join(HERE, "evidence", f"{pid}.json"), "w") as fh:
+    # evidence describes /repo itself: a run against a scratch copy (VERIF_REPO_SRC, used for mutation experiments)
+    # writes its report next to the replays instead, never over the committed evidence
+    ev_dir = os.path.join(HERE, "evidence") if "VERIF_REPO_SRC" not in os.environ else os.path.join(HERE, "replays", "scratch-evidence")
+    os.makedirs(ev_dir, exist_ok=True)
+    with open(os.path.join(ev_dir, f"{pid}.json"), "w") as fh:
         json.dump(evidence, fh, indent=1, default=str)
 
     for l in lines:
